@@ -184,3 +184,31 @@ def split_run_answer(ans):
             stats[w[k]] = w[k + 1]
     sent = parts[3][5:] if len(parts) > 3 else "-"
     return {"results": results, "out": out, "stats": stats, "sent": sent}
+
+def show(tree, depth=0):
+    """readable rendering of a value tree (diagnostics and replay files only)"""
+    if tree is None: return "?"
+    if depth > 200: return "..."
+    k = tree[0]
+    if k == "meta": return show(tree[5], depth)
+    if k == "nil": return "()"
+    if k == "num": return str(tree[1])
+    if k == "chr": return "%" + chr(tree[1])
+    if k == "sym": return tree[1]
+    if k == "usym": return "#<symbol>"
+    if k == "nat": return "#<native " + tree[1] + ">"
+    if k == "fun": return "#<macro>" if tree[1] else "#<lambda>"
+    if k == "trap": return "#<trap " + show(tree[1], depth + 1) + " " + show(tree[2], depth + 1) + ">"
+    s = text_of(tree)
+    if s is not None: return '"' + s + '"'
+    parts = []
+    t = tree
+    while True:
+        if t[0] == "meta": t = t[5]
+        if t[0] == "cons":
+            parts.append(show(t[1], depth + 1)); t = t[2]
+        elif t[0] == "nil":
+            break
+        else:
+            parts.append("."); parts.append(show(t, depth + 1)); break
+    return "(" + " ".join(parts) + ")"
